@@ -32,6 +32,7 @@ structure PropDecl (P : Type) where
   always : Bool
   /-- `po.default` -/
   dflt : P
+  deriving DecidableEq
 
 /-- what `Module.__init__` starts from -/
 structure ModInit (P : Type) where
